@@ -41,6 +41,7 @@ func checkC13(c *Ctx) {
 	c.Rule("C13.R5", "optional interfaces: MemoryStore and SQLiteStore both implement BatchEnqueuer, LeaseBatchStore and BacklogTrendStore")
 	c.Rule("C13.R6", "sentinel-error and admission parity: per Store method the sentinel errors that can be returned, and the counts used by the admission test, are the same in memory and SQLite")
 	c.Rule("C13.R7", "retention parity: per pruned state, the age field compared with the cut-off, the boundary (closed/open) and the retention setting the cut-off derives from are the same in the memory store and SQLite (Postgres differences are noted)")
+	c.Rule("C13.R8", "error precedence parity: on the enqueue paths the capacity refusal (ErrQueueFull) is decided before any duplicate-id test in the memory store, as in SQLite where the duplicate only surfaces at the INSERT — a call refused for both reasons gets the same error from both")
 
 	// ---- R1 ----
 	type rowKey struct{ root, class string }
@@ -127,6 +128,7 @@ func checkC13(c *Ctx) {
 
 	checkSentinelParity(c, "C13.R6")
 	checkRetentionParity(c, "C13.R7")
+	checkErrorPrecedence(c, "C13.R8")
 }
 
 // requestFieldOf: the request field (or Duration parameter) a value derives from, through phis/cells/conversions.
